@@ -918,9 +918,10 @@ def evaluate__apply(self: XPathFunction, context: ta.ContextType = None) \
     if self.context is not None:
         context = self.context
 
-    if isinstance(self[0], XPathFunction):
-        func = self[0]
-    else:
+    func = self[0][1] if self[0].symbol == ':' else self[0]
+    if not isinstance(func, XPathFunction) or \
+            func.symbol != 'function' and not func.is_reference():
+        # an expression that evaluates to a function item (also a function call)
         func = self.get_argument(context, required=True, cls=XPathFunction)
 
     array_ = self.get_argument(context, index=1, required=True, cls=XPathArray)
